@@ -143,7 +143,13 @@ NTF = {"startrepl": "NStartRepl", "start": "NStart", "time": "NTime", "warmup": 
 
 
 def c_tmv(t):
-    return "TNaN" if t == "nan" else f"(TNum {C.cz(t)})"
+    if t == "nan":
+        return "TNaN"
+    if isinstance(t, str) and t.startswith("tinyneg"):   # any negative delay, however small, is a negative delay
+        return "(TNum (-1)%Z)"
+    if t == "tinypast":                                    # an absolute time before the clock (clocks are never negative)
+        return "(TNum (-4000000)%Z)"
+    return f"(TNum {C.cz(t)})"
 
 
 def c_cmd(c):
